@@ -26,7 +26,7 @@ PROBES = ["finite_levels_replaced_after_construction", "near_boundary_with_ev", 
           "plugin_occupied", "world_invalid_pilot", "world_rejected_with_ev", "min_gt_zero_evse", "inf_max_evse", "advertised_inf_max",
           "finite_without_zero", "finite_unsorted_or_dup", "twin_evses_world", "world_resume_json", "world_advertised_value",
           "plugin_occupied_same_session_id", "world_party_scribbled_on_handed_info", "rates_given_as_one_shot_iterable", "plugin_occupied_via_network", "plugin_occupied_newcomer_after_occupants_departure", "pilot_sent_through_network", "bench_network_over_64_stations", "plugin_occupied_same_object", "near_duplicate_levels",
-          "caller_keeps_the_rate_list_it_passed", "caller_edited_its_own_rate_list", "subclass_overrides_rate_properties"]
+          "caller_keeps_the_rate_list_it_passed", "caller_edited_its_own_rate_list", "subclass_overrides_rate_properties", "last_accepted_pilot_sent_again_after_rerating"]
 FAULT_DIMENSION = ("misbehaving scheduler: out-of-set pilot at an arbitrary call of a run (terminal fault, judged on the rejected station); "
                    "scheduler crash + JSON save/load (advertised limits must still be each station's own)")
 REAL_VS_STUB = "real: EVSE, DeadbandEVSE, FiniteRatesEVSE, EV, Battery models, ChargingNetwork, Interface, Simulator; ours: probing party"
@@ -131,6 +131,7 @@ def gen(rs, tier):
             if e["type"] == "Finite" and r.random() < 0.25:
                 # the owner derates / re-rates the charger after construction through its public attribute allowable_rates
                 ops.append({"op": "rerate", "mode": r.choice(["cut_top", "cut_top", "cut_bottom", "append_higher"]), "u": r.random()})
+                ops.append({"op": "repeat_last_accepted"})    # the pilot that was fine a moment ago is sent again after the re-rating
             ops.append({"op": "advertised"})
         elif k < 0.96 and ev is not None:
             ops.append({"op": "plugin", "same_id": r.random() < 0.4, "same_object": r.random() < 0.2, "via_network": r.random() < 0.5,
@@ -237,6 +238,7 @@ def check(sc):
                         repr(cur_ev._battery._to_dict({})[0]))
 
             via_net = [sc["seed"] % 3]
+            last_acc = [None]
 
             def try_set(v, label, i):
                 nonlocal cur_ev
@@ -269,6 +271,7 @@ def check(sc):
                     out.add("C13/accept_reject", "op %d: set_pilot(%r) %s; distance to allowable set %r (%s)" % (i, v, "accepted" if acc else "rejected", d, e))
                     return
                 if acc:
+                    last_acc[0] = v
                     if label == "edge" and d > 0:
                         out.probe("accepted_edge")
                     if float(evse.current_pilot) != float(v):
@@ -299,6 +302,10 @@ def check(sc):
                     evse.allowable_rates = list(new)
                     e["rates"] = list(new)
                     out.probe("finite_levels_replaced_after_construction")
+                elif o == "repeat_last_accepted":
+                    if last_acc[0] is not None:
+                        out.probe("last_accepted_pilot_sent_again_after_rerating")
+                        try_set(last_acc[0], "repeat", i)
                 elif o == "caller_edits_own_list":
                     if "own_list_normalised" in sc and e["type"] == "Finite":
                         top_ = max(own_list) if own_list else 0
